@@ -15,6 +15,10 @@ use std::{
     ops::BitOr,
 };
 
+#[cfg(feature = "verif-hooks")]
+#[path = "verif_cache.rs"]
+mod verif_cache;
+
 /// Bitflags-style type for filtering by IP version.
 #[derive(Clone, Copy)]
 pub(crate) struct IpType(u8);
